@@ -113,6 +113,85 @@ def worker_compiled(cfg, tier):
     return obs
 
 
+def worker_instance(cfg, tier):
+    """whole episode of a concrete compiled instance driven by reset + max_steps x step (the gym-style API executes the last partition too):
+    every executed step must own a record row holding what it was handed; payloads are uninterpreted functions."""
+    import jax
+    from vlib import cg, fixtures, jx
+
+    inst = cfg["inst"]
+    nodes, cgr, g = cg.build(inst, node_cls=fixtures.OracleNode)
+    obs = []
+    for eps in range(g.max_eps):
+        gs0 = g.init_record(g.init(jax.random.PRNGKey(1), starting_eps=eps), params=True, rng=True, inputs=True, state=True, output=True)
+        calls = cg.UFCalls()
+        it = jx.Interp(callback_handler=calls.handler)
+
+        def episode(s):
+            s, _ = g.reset(s)
+            for _ in range(g.max_steps):
+                s, _ = g.step(s)
+            return s
+
+        tr = jx.Traced(episode, gs0)
+        out = tr.run(it, tr.concrete_inputs(it))
+        rec = out.aux["record"]
+        bad, n_exec = [], 0
+        for c in calls.calls:
+            if c["guard"] is False:
+                continue
+            kind = c["tag"][len("oracle_step_"):]
+            seq = int(c["args"][0].item())
+            steps = rec.nodes[kind].steps
+            n_exec += 1
+            if not (0 <= seq < steps.seq.shape[0]):
+                bad.append(f"{kind} step {seq} was executed but the record has only {steps.seq.shape[0]} rows")
+                continue
+            row_seq = steps.seq.v[seq]
+            row_state = steps.state.x.v[seq]
+            if not (row_seq == seq) or not _same_term(row_state, c["args"][2].item()):
+                bad.append(f"{kind} step {seq}: record row holds seq={row_seq}, state={row_state}")
+        o = Ob("instance: every step executed by reset + max_steps x step owns a record row with the seq/state it was handed", "unsat" if not bad else "sat", 0,
+               dict(inst=inst, eps=eps), detail=f"{n_exec} executed steps; {bad[:3]}", key="record-missing-rows",
+               what=f"compiled record is too short / unfaithful for a full-length episode: {bad[:2]}", queries=max(1, n_exec))
+        if bad:
+            o.replayed = _replay_instance_rows(inst, eps)
+        obs.append(o)
+    return obs
+
+
+def _same_term(a, b):
+    from vlib import jx
+    if jx.isz(a) and jx.isz(b):
+        return a.eq(b)
+    if jx.isz(a) or jx.isz(b):
+        return False
+    return abs(float(a) - float(b)) < 1e-6
+
+
+def _replay_instance_rows(inst, eps):
+    """real run with the logging probe node: is some executed step missing from the record?"""
+    import jax
+    from vlib import cg, fixtures
+
+    try:
+        nodes, cgr, g = cg.build(inst, node_cls=fixtures.OracleNode)
+        gs = g.init_record(g.init(jax.random.PRNGKey(1), starting_eps=eps), state=True)
+        fixtures.CALL_LOG.clear()
+        gs, _ = g.reset(gs)
+        for _ in range(g.max_steps):
+            gs, _ = g.step(gs)
+        rec = gs.aux["record"]
+        for tag, a in fixtures.CALL_LOG:
+            kind, seq = tag[len("oracle_step_"):], int(a[0])
+            sq = np.asarray(rec.nodes[kind].steps.seq)
+            if seq >= len(sq) or int(sq[seq]) != seq:
+                return True
+        return False
+    except BaseException:  # noqa
+        return None
+
+
 def _replay_interference(g, gs0, gsr0, trB, flB, m):
     import jax
     from vlib import cg
@@ -327,6 +406,11 @@ def run(rep):
     rep.configs = cfgs + acfg
     rep.stubs = ["threaded runtime: _submit -> recorder, node.step -> opaque stand-in, log -> no-op, numpy dtype promotion -> identity"]
     obs += pmap("props.c13", "worker_async", acfg, rep.tier)
+    from vlib import cg as _cg
+    icfg = [dict(inst=i) for i in (_cg.instances(rep.tier, small=True)[:3] if rep.tier == "quick" else _cg.instances(rep.tier))]
+    icfg.append(dict(inst=dict(kind="three", rates=(10, 25, 7), windows=(2, 1, 2), ts_max=0.5, mode="mcs")))
+    rep.configs = rep.configs + icfg
+    obs += pmap("props.c13", "worker_instance", icfg, rep.tier)
     rep.add_all(obs)
 
 
